@@ -1,6 +1,6 @@
 --------------------------- MODULE Trace_Backups ---------------------------
 (* C20 conformance.  One behaviour = one image: a "mkfs" line (reset), then one line per successful tool run, then
-   "recover" / "plain" lines (the property's experiment, carried out on copies).  Every line carries what the independent
+   "recover" / "plain" / "plaingd" lines (the property's experiment, carried out on copies).  Every line carries what the independent
    parser (checks/c20.py) read from the image AFTER the run:
      obs.prim = {sb: s, gd: [[digest of block 1's table locations], ...]}
      obs.osb  = [{g, s}]      every group 1..gdc-1 whose first block is a valid superblock copy (magic, group number, checksum)
@@ -76,8 +76,13 @@ TRecover == /\ IsEvent("recover") /\ Alive /\ last # "env"
 TPlain == /\ IsEvent("plain") /\ Alive /\ last # "env" /\ L.geo = geo
           /\ (PlainObliged(Cur) /\ \E g \in Search(Cur, FALSE) : Restores(g)) => Success
           /\ UNCHANGED vars
+\* plain e2fsck -fy after only the primary descriptor blocks were zeroed ("Group descriptors look bad... trying backup
+\* blocks..."): get_backup_sb with the block and group size of the primary superblock
+TPlainGd == /\ IsEvent("plaingd") /\ Alive /\ last # "env" /\ L.geo = geo
+            /\ (PlainObliged(Cur) /\ \E g \in Search(Cur, TRUE) : Restores(g)) => Success
+            /\ UNCHANGED vars
 TraceInit == Blank /\ l = 1
-TraceNext == TMkfs \/ TResize \/ TResize64 \/ TTuneFeat \/ TTuneUUID \/ TTuneISize \/ TEnv \/ TEnvData \/ TEnvBackup \/ TFsck \/ TRecover \/ TPlain
+TraceNext == TMkfs \/ TResize \/ TResize64 \/ TTuneFeat \/ TTuneUUID \/ TTuneISize \/ TEnv \/ TEnvData \/ TEnvBackup \/ TFsck \/ TRecover \/ TPlain \/ TPlainGd
 TraceSpec == TraceInit /\ [][TraceNext]_tvars
 TraceAccepted == TLCGet("stats").diameter - 1 = Len(Tr)
 =============================================================================
